@@ -40,6 +40,11 @@ def random_action(cl, rng, w, state):
             cands.append((w['connect'], ('Connect',)))
     if w.get('compact', 0) > 0:
         cands.append((w['compact'], ('Compact',)))
+    startable = [n for n in N if not N[n].alive and N[n].voter]
+    if w.get('start', 0) > 0 and startable and ids:
+        cands.append((w['start'], ('Start',)))
+    if w.get('stop', 0) > 0 and len(ids) > 1:
+        cands.append((w['stop'], ('Stop',)))
     tot = sum(c[0] for c in cands)
     r = rng.random() * tot
     for wt, a in cands:
@@ -53,9 +58,10 @@ def random_action(cl, rng, w, state):
         return ('Deliver',) + rng.choice(sorted(chans))
     if k == 'Submit':
         state['ncmd'] += 1
-        cid = 'c%d' % state['ncmd']
         kinds = state.get('kinds', [('op', 1.0)])
         kk = rng.choices([x[0] for x in kinds], [x[1] for x in kinds])[0]
+        # the kind is visible in the id, so that sets of ids (Raisers, SpecialCids) mean the same in every trace
+        cid = {'op': 'c', 'boom': 'x', 'add': 'm', 'rem': 'm', 'ver': 'v', 'vop': 'w'}[kk] + str(state['ncmd'])
         spec = {'kind': kk}
         if kk in ('add', 'rem'):
             spec['x'] = rng.choice(state['memb_targets'])
@@ -65,7 +71,11 @@ def random_action(cl, rng, w, state):
             spec['pad'] = rng.choice(state['pads'])
         if rng.random() < state.get('nocb', 0.0):
             spec['cb'] = False
-        return ('Submit', rng.choice(ids), cid, spec)
+        at = rng.choice(ids)
+        iso = getattr(cl, 'script_isolated', None)
+        if iso in ids and rng.random() < state.get('submit_at_isolated', 0.0):
+            at = iso
+        return ('Submit', at, cid, spec)
     if k == 'Break':
         return ('Break',) + rng.choice(sorted(alive_pairs))
     if k == 'Notice':
@@ -74,10 +84,28 @@ def random_action(cl, rng, w, state):
         return ('Connect',) + rng.choice(sorted(connectable))
     if k == 'Compact':
         return ('Compact', rng.choice(ids))
+    if k == 'Start':
+        # operator discipline: a fresh process is given the member list some running voter currently has
+        n = rng.choice(sorted(startable))
+        vs = [v for v in ids if N[v].voter]
+        v = rng.choice(sorted(vs)) if vs else None
+        if v is None:
+            return ('Compact', rng.choice(ids))
+        members = sorted(set(x.id for x in N[v].obj.otherNodes) | {v, n})
+        return ('Start', n, members)
+    if k == 'Stop':
+        # operator discipline: only a node whose removal has committed is shut down
+        removed = state.get('removed_ok', [])
+        cand = [n for n in ids if n in removed]
+        if not cand:
+            return ('Compact', rng.choice(ids))
+        return ('Stop', rng.choice(sorted(cand)))
     raise AssertionError(a)
 
 
 def run_random(cfg, seed, steps, weights=None, maxcmd=12, extra=None):
+    """seeded random schedule.  extra['phases'] = [[steps, weight overrides, [scripted actions]], ...] optionally
+    splits the run into phases; scripted actions use the placeholders of _script (e.g. ["isolate", "c"])."""
     rng = random.Random(seed)
     w = dict(DEFAULT_W)
     if weights:
@@ -87,15 +115,47 @@ def run_random(cfg, seed, steps, weights=None, maxcmd=12, extra=None):
     state = {'ncmd': 0, 'maxcmd': maxcmd}
     if extra:
         state.update(extra)
+    phases = state.get('phases') or [[steps, {}, []]]
     try:
-        for _ in range(steps):
-            act = random_action(cl, rng, w, state)
-            if not cl.applicable(act):
-                continue
-            trace.append(cl.step(act))
+        for (psteps, pw, script) in phases:
+            ww = dict(w)
+            ww.update(pw)
+            for act in _script(cl, script, rng):
+                if cl.applicable(act):
+                    trace.append(cl.step(act))
+            for _ in range(psteps):
+                act = random_action(cl, rng, ww, state)
+                if not cl.applicable(act):
+                    continue
+                trace.append(cl.step(act))
     finally:
         cl.close()
     return trace
+
+
+def _script(cl, script, rng):
+    """expand scripted phase-start actions"""
+    out = []
+    for s in script:
+        if s[0] == 'isolate':       # cut every link of node s[1]; both ends notice
+            n = s[1] if s[1] != '?' else rng.choice(sorted(cl.nodes))
+            if s[1] == 'leader':    # the current leader (highest term), if any
+                ls = [(sn.obj.raftCurrentTerm, nid) for nid, sn in cl.nodes.items() if sn.alive and sn.obj._isLeader()]
+                n = max(ls)[1] if ls else rng.choice(sorted(cl.nodes))
+            cl.script_isolated = n
+            for m in sorted(cl.nodes):
+                if m != n:
+                    out += [('Break', n, m), ('Notice', n, m), ('Notice', m, n)]
+        elif s[0] == 'heal':        # (re)connect everything that can be connected
+            ids = sorted(cl.nodes)
+            for i in ids:
+                for j in ids:
+                    if i < j:
+                        out += [('Notice', i, j), ('Notice', j, i), ('Connect', j, i), ('Connect', i, j), ('Deliver', j, i), ('Deliver', i, j)]
+        else:
+            out.append(tuple(s))
+    # generated lazily against the evolving cluster: applicability is re-checked by the caller
+    return out
 
 
 def run_schedule(cfg, schedule):
